@@ -499,7 +499,13 @@ func runAliasMode(seed int64, n int, tr *transcript) {
 						}
 						return renderKVs(got)
 					})
-					tr.emit(fmt.Sprintf("seq %d range %s %s 0 1", id, lit, lit2), out)
+					if len(kb) == 0 {
+						// an empty end bound means "up to the largest stored key" for byte strings (also when the start is
+						// empty too): judged as the open-ended range it is
+						tr.emit(fmt.Sprintf("seq %d rangeopen %s 0 1", id, lit), out)
+					} else {
+						tr.emit(fmt.Sprintf("seq %d range %s %s 0 1", id, lit, lit2), out)
+					}
 					if !b.intact() {
 						violated("Range", b)
 					}
